@@ -1451,58 +1451,68 @@ theorem procUplink_cases (hc : Bool) (cto : Option Nat) (l : FLink F) (idx : Nat
     ((Reg.processRegistrationPacket reg idx data now).2 ≠ none →
       (processUplinkPacket l idx reg ck data now).2.2.acks = [] ∧
       (processUplinkPacket l idx reg ck data now).2.2.sacks = [] ∧
-      (processUplinkPacket l idx reg ck data now).2.2.naks = []) := by
+      (processUplinkPacket l idx reg ck data now).2.2.naks = []) ∧
+    ((Reg.processRegistrationPacket reg idx data now).2 = some .reg3 ∨
+      (Reg.processRegistrationPacket reg idx data now).2 = some .regErr →
+      (processUplinkPacket l idx reg ck data now).2.2.reg1Send = none) := by
   have hhc := procReg_hasConnected reg idx data now
   unfold processUplinkPacket
   split
   · rename_i hpt
     have hnone : Reg.processRegistrationPacket reg idx data now = (reg, none) := by
       unfold Reg.processRegistrationPacket; rw [hpt]
-    rw [hnone]
-    exact ⟨.evolves (Evolves.refl hc cto l) (by simp), by simp, fun h => absurd rfl h⟩
+    refine ⟨.evolves (Evolves.refl hc cto l) (by rw [hnone]; simp), by rw [hnone]; simp,
+      fun h => absurd (by rw [hnone]) h, fun h => ?_⟩
+    simp [hnone] at h
   · rename_i pt hpt
-    generalize hr : Reg.processRegistrationPacket reg idx data now = r at hhc ⊢
-    obtain ⟨reg1, ev⟩ := r
+    rcases hr : Reg.processRegistrationPacket reg idx data now with ⟨reg1, ev⟩
+    rw [hr] at hhc
     dsimp only at hhc ⊢
     cases ev with
     | none =>
       dsimp only
-      refine ⟨.evolves ?_ (by simp), by simpa using hhc, fun h => absurd rfl h⟩
+      have hne3 : (Reg.processRegistrationPacket reg idx data now).2 ≠ some .reg3 := by rw [hr]; simp
+      have hhc' : reg1.hasConnected = (reg.hasConnected || decide ((none : Option Reg.RegEvent) = some .reg3)) := hhc
+      have hvac : ((none : Option Reg.RegEvent) ≠ none → ([] : List Nat) = [] ∧ ([] : List Nat) = [] ∧ ([] : List Nat) = []) :=
+        fun h => absurd rfl h
       have hst := ev_stamps hc cto l (some now) l.core.lastSent l.core.proofMs
       have hst' : Evolves hc cto l { l with core := { l.core with lastReceived := some now } } := hst
       split
-      · exact hst'
+      · exact ⟨.evolves hst' hne3, hhc', fun h => absurd rfl h, fun h => by simp at h⟩
       · split
-        · exact hst'
+        · exact ⟨.evolves hst' hne3, hhc', fun h => absurd rfl h, fun h => by simp at h⟩
         · split
-          · exact hst'
+          · exact ⟨.evolves hst' hne3, hhc', fun h => absurd rfl h, fun h => by simp at h⟩
           · split
             · have hk := ev_handleKeepaliveResponse hc cto
                 ({ l with core := { l.core with lastReceived := some now } }) data now
-              generalize FLink.handleKeepaliveResponse _ data now = kr at hk ⊢
+              generalize FLink.handleKeepaliveResponse ({ l with core := { l.core with lastReceived := some now } } : FLink F) data now = kr at hk ⊢
               obtain ⟨l2, sample⟩ := kr
               dsimp only at hk ⊢
               cases sample with
-              | none => exact hst'.trans hk
+              | none => exact ⟨.evolves (hst'.trans hk) hne3, hhc', fun h => absurd rfl h, fun h => by simp at h⟩
               | some v =>
                 dsimp only
                 have h3 := ev_recordRttProbe hc cto l2
                 have h4 := ev_stamps hc cto l2.recordRttProbe l2.recordRttProbe.core.lastReceived
                   l2.recordRttProbe.core.lastSent now
-                exact (hst'.trans hk).trans (h3.trans h4)
-            · exact hst'
+                exact ⟨.evolves ((hst'.trans hk).trans (h3.trans h4)) hne3, hhc', fun h => absurd rfl h,
+                  fun h => by simp at h⟩
+            · exact ⟨.evolves hst' hne3, hhc', fun h => absurd rfl h, fun h => by simp at h⟩
     | some e =>
       cases e with
       | regNgp =>
         dsimp only
-        refine ⟨.evolves (Evolves.refl hc cto l) (by simp), ?_, fun _ => ⟨rfl, rfl, rfl⟩⟩
-        rw [reg1Imm_hasConnected]; simpa using hhc
+        refine ⟨.evolves (Evolves.refl hc cto l) (by rw [hr]; simp), ?_, fun _ => ⟨rfl, rfl, rfl⟩,
+          fun h => by simp at h⟩
+        rw [reg1Imm_hasConnected]; exact hhc
       | reg2 =>
-        exact ⟨.evolves (Evolves.refl hc cto l) (by simp), by simpa using hhc, fun _ => ⟨rfl, rfl, rfl⟩⟩
+        exact ⟨.evolves (Evolves.refl hc cto l) (by rw [hr]; simp), hhc, fun _ => ⟨rfl, rfl, rfl⟩,
+          fun h => by simp at h⟩
       | reg3 =>
-        exact ⟨.reg3 rfl rfl, by simpa using hhc, fun _ => ⟨rfl, rfl, rfl⟩⟩
+        exact ⟨.reg3 (by rw [hr]) rfl, hhc, fun _ => ⟨rfl, rfl, rfl⟩, fun _ => rfl⟩
       | regErr =>
-        exact ⟨.regErr rfl rfl, by simpa using hhc, fun _ => ⟨rfl, rfl, rfl⟩⟩
+        exact ⟨.regErr (by rw [hr]) rfl, hhc, fun _ => ⟨rfl, rfl, rfl⟩, fun _ => rfl⟩
 
 theorem pw_withCores (hc : Bool) (cto : Option Nat) (ls : List (FLink F)) (cs : Links)
     (h : PW CoreEvolves (cores ls) cs) : PW (Evolves hc cto) ls (withCores ls cs) := by
@@ -1570,6 +1580,55 @@ theorem getElem?_setAt (ls : List (FLink F)) (i j : Nat) (x : FLink F) :
   · rfl
   · cases ls[j]? <;> rfl
 
+theorem uplink_tail (s : Sys F) (cid : Nat) (data : Sys.Bytes) (now idx : Nat) (l l1 l2 : FLink F)
+    (reg1 : Reg.Reg) (inc : Incoming)
+    (hidx : s.links.findIdx? (·.core.connId == cid) = some idx) (hl : s.links[idx]? = some l)
+    (hk : UpKind s.reg.hasConnected none s.reg idx data now l l1)
+    (hinc : (Reg.processRegistrationPacket s.reg idx data now).2 ≠ none →
+      inc.acks = [] ∧ inc.sacks = [] ∧ inc.naks = [])
+    (h12 : Evolves s.reg.hasConnected none l1 l2)
+    (h12' : (Reg.processRegistrationPacket s.reg idx data now).2 = some .reg3 ∨
+      (Reg.processRegistrationPacket s.reg idx data now).2 = some .regErr → l2 = l1) :
+    (∀ j x, s.links[j]? = some x →
+      ∃ l', (processConnectionEvents ({ s with links := setAt s.links idx l2, reg := reg1 } : Sys F)
+          idx inc now).1.links[j]? = some l' ∧ UpStep s cid data now j x l') ∧
+    (processConnectionEvents ({ s with links := setAt s.links idx l2, reg := reg1 } : Sys F)
+          idx inc now).1.links.length = s.links.length ∧
+    (processConnectionEvents ({ s with links := setAt s.links idx l2, reg := reg1 } : Sys F)
+          idx inc now).1.reg = reg1 ∧
+    (processConnectionEvents ({ s with links := setAt s.links idx l2, reg := reg1 } : Sys F)
+          idx inc now).1.cfg = s.cfg := by
+  obtain ⟨p1, p2, p3, p4⟩ := procEvents_pw s.reg.hasConnected none
+    ({ s with links := setAt s.links idx l2, reg := reg1 } : Sys F) idx inc now
+  refine ⟨?_, by rw [p1.length]; simp [setAt], p2, p3⟩
+  intro j x hx
+  have hj : (setAt s.links idx l2)[j]? = some (if j = idx then l2 else x) := by
+    rw [getElem?_setAt, hx]; split <;> rfl
+  obtain ⟨l', hl', hev⟩ := p1.get j _ hj
+  refine ⟨l', hl', ?_⟩
+  by_cases hji : j = idx
+  · subst hji
+    rw [hl] at hx; cases hx
+    simp only [if_true] at hev
+    cases hk with
+    | evolves h _ => exact .evolves ((h.trans h12).trans hev)
+    | reg3 hev3 hl3 =>
+      have hemp := hinc (by rw [hev3]; simp)
+      have hlinks := procEvents_empty ({ s with links := setAt s.links j l2, reg := reg1 } : Sys F) j inc now hemp
+      have h1 : l' = l2 := by
+        rw [hlinks, hj] at hl'; simpa using hl'.symm
+      have h2 : l2 = l1 := h12' (Or.inl hev3)
+      exact .reg3 hidx hev3 (by rw [h1, h2, hl3])
+    | regErr hevE hlE =>
+      have hemp := hinc (by rw [hevE]; simp)
+      have hlinks := procEvents_empty ({ s with links := setAt s.links j l2, reg := reg1 } : Sys F) j inc now hemp
+      have h1 : l' = l2 := by
+        rw [hlinks, hj] at hl'; simpa using hl'.symm
+      have h2 : l2 = l1 := h12' (Or.inr hevE)
+      exact .regErr hidx hevE (by rw [h1, h2, hlE])
+  · simp only [hji, if_false] at hev
+    exact .evolves hev
+
 /-- **Uplink event, link by link.** -/
 theorem uplink_links (s : Sys F) (cid : Nat) (data : Sys.Bytes) (now : Nat) :
     (∀ j l, s.links[j]? = some l →
@@ -1585,77 +1644,50 @@ theorem uplink_links (s : Sys F) (cid : Nat) (data : Sys.Bytes) (now : Nat) :
   unfold handleUplinkPacket
   split
   · rename_i hemp
-    exact ⟨hsame, rfl, fun h => h, fun _ _ _ h => by rw [hemp] at h; cases h, rfl⟩
+    exact ⟨hsame, rfl, fun h => h, fun _ _ _ h => (by rw [hemp] at h; cases h), rfl⟩
   · split
     · rename_i hidx
-      exact ⟨hsame, rfl, fun h => h, fun j hj => by rw [hidx] at hj; cases hj, rfl⟩
+      exact ⟨hsame, rfl, fun h => h, fun j hj => (by rw [hidx] at hj; cases hj), rfl⟩
     · rename_i idx hidx
       split
-      · exact ⟨hsame, rfl, fun h => h, fun j hj => by
-          have := List.findIdx?_eq_some_iff_getElem.1 hidx
-          obtain ⟨hlt, -⟩ := this
-          rename_i hnone
-          rw [List.getElem?_eq_getElem hlt] at hnone; cases hnone, rfl⟩
+      · rename_i hnone
+        have hlt := (List.findIdx?_eq_some_iff_getElem.1 hidx).1
+        rw [List.getElem?_eq_getElem hlt] at hnone; cases hnone
       · rename_i l hl
-        obtain ⟨hk, hhc, hinc⟩ := procUplink_cases s.reg.hasConnected none l idx s.reg s.clientKnown data now
-        generalize processUplinkPacket l idx s.reg s.clientKnown data now = r at hk hhc hinc ⊢
+        obtain ⟨hk, hhc, hinc, hr1⟩ := procUplink_cases s.reg.hasConnected none l idx s.reg s.clientKnown data now
+        generalize processUplinkPacket l idx s.reg s.clientKnown data now = r at hk hhc hinc hr1 ⊢
         obtain ⟨l1, reg1, inc⟩ := r
-        dsimp only at hk hhc hinc ⊢
-        -- the optional immediate REG1 only stamps `last_sent`
-        generalize hl2 : (match inc.reg1Send with
-          | some p => (({ l1 with core := { l1.core with lastSent := some now } } : FLink F), [(cid, p)])
-          | none => (l1, [])) = r2
-        have hl2' : r2.1 = l1 ∨ r2.1 = { l1 with core := { l1.core with lastSent := some now } } := by
-          rw [← hl2]; split
-          · right; rfl
-          · left; rfl
-        obtain ⟨l2, wire⟩ := r2
-        dsimp only at hl2' ⊢
-        have hev12 : Evolves s.reg.hasConnected none l1 l2 := by
-          rcases hl2' with e | e
-          · rw [e]; exact Evolves.refl _ _ _
-          · rw [e]; exact ev_stamps _ _ l1 l1.core.lastReceived (some now) l1.core.proofMs
-        obtain ⟨p1, p2, p3, p4⟩ := procEvents_pw s.reg.hasConnected none
-          ({ s with links := setAt s.links idx l2, reg := reg1 } : Sys F) idx inc now
-        have hlen : (processConnectionEvents ({ s with links := setAt s.links idx l2, reg := reg1 } : Sys F)
-            idx inc now).1.links.length = s.links.length := by
-          rw [p1.length]; simp [setAt]
-        refine ⟨?_, hlen, ?_, ?_, p3⟩
-        · intro j x hx
-          have hj : (setAt s.links idx l2)[j]? = some (if j = idx then l2 else x) := by
-            rw [getElem?_setAt, hx]; split <;> rfl
-          obtain ⟨l', hl', hev⟩ := p1.get j _ hj
-          refine ⟨l', hl', ?_⟩
-          by_cases hji : j = idx
-          · subst hji
-            rw [hl] at hx; cases hx
-            simp only [if_true] at hev
-            cases hk with
-            | evolves h _ => exact .evolves ((h.trans hev12).trans hev)
-            | reg3 hev3 hl3 =>
-              have hemp := hinc (by rw [hev3]; simp)
-              have hlinks := procEvents_empty ({ s with links := setAt s.links j l2, reg := reg1 } : Sys F) j inc now hemp
-              have : l' = l2 := by
-                rw [hlinks] at hl'
-                rw [hj] at hl'; simpa using hl'.symm
-              have hl21 : l2 = l1 := by
-                rcases hl2' with e | e
-                · exact e
-                · -- REG3 never requests an immediate REG1; either way the record differs only by a stamp
-                  exact absurd rfl (by
-                    intro _
-                    sorry)
-              sorry
-            | regErr hevE hlE => sorry
-          · simp only [hji, if_false] at hev
-            exact .evolves hev
-        · intro h
-          rw [p2]; show reg1.hasConnected = true
-          rw [hhc, h]; rfl
-        · intro j hj hev3 _
-          rw [hidx] at hj
-          cases hj
-          rw [p2]; show reg1.hasConnected = true
-          rw [hhc, hev3]; simp
+        dsimp only at hk hhc hinc hr1 ⊢
+        have hfin : ∀ l2 : FLink F, Evolves s.reg.hasConnected none l1 l2 →
+            ((Reg.processRegistrationPacket s.reg idx data now).2 = some .reg3 ∨
+              (Reg.processRegistrationPacket s.reg idx data now).2 = some .regErr → l2 = l1) →
+            (∀ j l, s.links[j]? = some l →
+              ∃ l', (processConnectionEvents ({ s with links := setAt s.links idx l2, reg := reg1 } : Sys F)
+                idx inc now).1.links[j]? = some l' ∧ UpStep s cid data now j l l') ∧
+            (processConnectionEvents ({ s with links := setAt s.links idx l2, reg := reg1 } : Sys F)
+                idx inc now).1.links.length = s.links.length ∧
+            (s.reg.hasConnected = true →
+              (processConnectionEvents ({ s with links := setAt s.links idx l2, reg := reg1 } : Sys F)
+                idx inc now).1.reg.hasConnected = true) ∧
+            (∀ j, s.links.findIdx? (·.core.connId == cid) = some j →
+              (Reg.processRegistrationPacket s.reg j data now).2 = some .reg3 → data.isEmpty = false →
+              (processConnectionEvents ({ s with links := setAt s.links idx l2, reg := reg1 } : Sys F)
+                idx inc now).1.reg.hasConnected = true) ∧
+            (processConnectionEvents ({ s with links := setAt s.links idx l2, reg := reg1 } : Sys F)
+                idx inc now).1.cfg = s.cfg := by
+          intro l2 h12 h12'
+          obtain ⟨t1, t2, t3, t4⟩ := uplink_tail s cid data now idx l l1 l2 reg1 inc hidx hl hk hinc h12 h12'
+          refine ⟨t1, t2, ?_, ?_, t4⟩
+          · intro h
+            rw [t3, hhc, h]; rfl
+          · intro j hj hev3 _
+            rw [hidx] at hj
+            cases hj
+            rw [t3, hhc, hev3]; simp
+        split
+        · rename_i p hp
+          exact hfin _ (ev_stamps _ _ l1 l1.core.lastReceived (some now) l1.core.proofMs)
+            (fun h => by rw [hr1 h] at hp; cases hp)
+        · exact hfin l1 (Evolves.refl _ _ _) (fun _ => rfl)
 
 end Srtla.Hk
